@@ -11,6 +11,7 @@ import (
 	"go/types"
 	"sort"
 	"strconv"
+	"strings"
 )
 
 type atomEnv map[string]int64
@@ -167,3 +168,34 @@ func fmtAtomEnv(env atomEnv) string {
 }
 
 func itoa64(v int64) string { return strconv.FormatInt(v, 10) }
+
+// isContextErr: X.Err() / context.Cause(X) of a context.Context, possibly wrapped by errors.Wrap/Wrapf/WithMessage
+// or fmt.Errorf (non-nil whenever the context is done).
+func isContextErr(info *types.Info, e ast.Expr) bool {
+	call, ok := unparen(e).(*ast.CallExpr)
+	if !ok {
+		return false
+	}
+	if se, ok := unparen(call.Fun).(*ast.SelectorExpr); ok {
+		if se.Sel.Name == "Err" && len(call.Args) == 0 && isNamed(info.TypeOf(se.X), "context", "Context") {
+			return true
+		}
+	}
+	f := calleeOf(info, call)
+	if f == nil || f.Pkg() == nil {
+		return false
+	}
+	switch {
+	case f.Pkg().Path() == "context" && f.Name() == "Cause" && len(call.Args) == 1:
+		return isNamed(info.TypeOf(call.Args[0]), "context", "Context")
+	case strings.HasSuffix(f.Pkg().Path(), "pkg/errors") && (f.Name() == "Wrap" || f.Name() == "Wrapf" || f.Name() == "WithMessage" || f.Name() == "WithMessagef" || f.Name() == "WithStack") && len(call.Args) >= 1:
+		return isContextErr(info, call.Args[0])
+	case f.Pkg().Path() == "fmt" && f.Name() == "Errorf":
+		for _, a := range call.Args[1:] {
+			if isContextErr(info, a) {
+				return true
+			}
+		}
+	}
+	return false
+}
